@@ -427,17 +427,54 @@ class StoreDriver:
 
     @staticmethod
     def _key(m, store):
-        """Canonical key: the model state refined by implementation-side discriminators."""
+        """Canonical key: the model state refined by a generic summary of the store object's own
+        attributes (cache residency order, flags, counters, sizes and contents of any array or
+        container it holds). Any attribute a change adds to the object splits states instead of being
+        merged away; attributes that cannot influence the future only cost time."""
         impl = None
         if store is not None:
+            impl = {}
+            for k, v in sorted(vars(store).items()):
+                impl[k] = _summ(v, 0)
             c = getattr(store, '_trajectories', None)
-            order = None
             if c is not None:
                 o = getattr(c, '_LRUCache__order', None)
-                order = list(o.keys()) if o is not None else sorted(c.keys())
-            impl = [order, getattr(store, 'index_stale', None), getattr(store, '_next_index', None),
-                    getattr(store, 'indexable', None)]
+                impl['__lru_order'] = list(o.keys()) if o is not None else sorted(c.keys())
         return {'model': m, 'impl': impl}
+
+
+def _summ(v, depth):
+    """Deterministic, history-relevant summary of an attribute value (no object identities, no
+    absolute temp paths, no time stamps)."""
+    import hashlib
+    import os
+
+    if v is None or isinstance(v, (bool, int, float)):
+        return v
+    if isinstance(v, str):
+        return os.path.basename(v) if '/' in v else v
+    if isinstance(v, os.PathLike):
+        return os.path.basename(str(v))
+    if isinstance(v, np.ndarray):
+        return ['nd', list(v.shape), hashlib.sha1(np.ascontiguousarray(v).tobytes()).hexdigest()[:10]]
+    if isinstance(v, np.generic):
+        return v.item()
+    if isinstance(v, dict):
+        # keys only: values of e.g. global attributes hold creation time stamps
+        return ['dict', sorted(str(k) for k in v.keys())[:40]]
+    if isinstance(v, (list, tuple, set, frozenset)):
+        if depth >= 2:
+            return [type(v).__name__, len(v)]
+        items = list(v)
+        if isinstance(v, (set, frozenset)):
+            items = sorted(items, key=repr)
+        return [type(v).__name__, [_summ(x, depth + 1) for x in items[:20]]]
+    if hasattr(v, 'keys') and hasattr(v, '__len__'):
+        try:
+            return [type(v).__name__, sorted(str(k) for k in v.keys())[:40]]
+        except Exception:  # noqa: BLE001
+            return [type(v).__name__]
+    return [type(v).__name__]
 
 
 def driver(alphabet, identified, max_traj, max_sessions=4):
